@@ -304,6 +304,7 @@ func (w *World) OpMapSet(n *Node, key *Node, vn *Node) error {
 			return viol("ret", "Map.Set on a new key returned a previous value %v", old)
 		}
 		n.seq++
+		n.gen++
 		n.M[ks] = &Entry{Key: key, Val: vn, Seq: n.seq}
 		attach(n, vn)
 	}
@@ -336,6 +337,7 @@ func (w *World) OpMapRemove(n *Node, key *Node) error {
 		return viol("ret-err", "Map.Remove of a present key failed: %v", err)
 	}
 	delete(n.M, kstr)
+	n.gen++
 	if err := w.checkReturned(ks, e.Key, "Map.Remove key"); err != nil {
 		return err
 	}
@@ -441,6 +443,7 @@ func (w *World) OpMapPop(n *Node) error {
 	}
 	old := n.M
 	n.M = map[string]*Entry{}
+	n.gen++
 	seen := map[string]bool{}
 	for _, p := range got {
 		kvv, err := p.k.StoredValue(w.st)
